@@ -49,8 +49,18 @@ class Ctx:
         self.id, self.tier, self.seed, self.replay = pid, tier, seed, replay
         self.repo = os.environ.get("VERIF_REPO", "/repo")
         self.out = os.path.join(VERIF, "out", "%s.%s" % (pid, tier if not replay else "replay"))
+        # two runs of the same check at the same time must not delete each other's scratch directory
+        lock = os.path.join(self.out, ".lock")
+        try:
+            other = int(open(lock).read().strip())
+            os.kill(other, 0)
+            if other != os.getpid():
+                self.out += ".%d" % os.getpid()
+        except Exception:
+            pass
         shutil.rmtree(self.out, ignore_errors=True)
         os.makedirs(self.out, exist_ok=True)
+        open(os.path.join(self.out, ".lock"), "w").write(str(os.getpid()))
         self.t0 = time.time()
         self.cands = []          # candidate violations
         self.states = 0
